@@ -235,4 +235,6 @@ def check(ctx):
     # a rolled-back checkpoint that goes through text must come back with the same parameters: every
     # floating-point member is written with full precision whatever the number of results (shared with C05)
     share(ctx, 'C05', 'R7/C05.', ['iii.', 'vi.', 'vii.'])
+    # a run of k iterations (k = 0 included) returns the checkpoint the driver prepared and maintained (shared with C12)
+    share(ctx, 'C12', 'R8/C12.', ['R1.returned'])
 
